@@ -102,6 +102,13 @@ fn run(c: &[i64]) -> Vec<i64> {
                     i += 11;
                 }
                 2 => { auth_tick.on_tick(signal_tx.clone()).await; i += 1; }
+                10 => {
+                    // a control cycle during which the interface refuses every write (link down, ENOBUFS)
+                    bus.fail_sends();
+                    auth_tick.on_tick(signal_tx.clone()).await;
+                    bus.unfail_sends();
+                    i += 1;
+                }
                 3 => { let (m, used) = dec_motion(&c[i + 1..]).unwrap(); auth_cmd.on_command(&Object::Motion(m)).await; i += 1 + used; }
                 8 => {
                     // the command is accepted but every socket write fails
